@@ -65,6 +65,41 @@ class _ListUnit(Unit):
     def opcode_obj(self, case):
         return C.find_opcode(case["set"], tuple(case["how"]))
 
+    def call_twice(self, X, thunk):
+        """the constructor call, and the same call once more with the very same argument objects"""
+        first = thunk()
+        try:
+            self.second = ("return", thunk())
+        except V.EngineSignal:
+            raise
+        except Exception as ex:
+            self.second = ("raise", ex)
+        return first
+
+    def second_clauses(self, cmd):
+        kind, val = getattr(self, "second", (None, None))
+        if kind is None:
+            return
+        if kind == "raise":
+            yield "C09", "repeating-the-call-with-the-same-objects-yields-equal-bytes (second call raised %s: %s)" % (type(val).__name__, str(val)[:50]), False
+            yield "C05", "constructible-a-second-time-from-the-same-dictionaries (raised %s)" % type(val).__name__, False
+            return
+        a, b = cmd.dataout, val.dataout
+        same = isinstance(a, (bytearray, bytes, V.SBytes)) and isinstance(b, (bytearray, bytes, V.SBytes)) and len(a) == len(b)
+        yield "C09", "repeating-the-call-with-the-same-objects-yields-equally-long-data", same
+        if same:
+            eq = True
+            for x, y in zip(list(a), list(b)):
+                if x is not y:
+                    eq = V.band(eq, x == y)
+            yield "C09", "repeating-the-call-with-the-same-objects-yields-equal-bytes", eq
+            yield "C05", "the-same-dictionaries-marshalled-again-give-the-same-parameter-list", eq
+            eqc = True
+            for x, y in zip(list(cmd.cdb), list(val.cdb)):
+                if x is not y:
+                    eqc = V.band(eqc, x == y)
+            yield "C09", "repeating-the-call-with-the-same-objects-yields-an-equal-cdb", V.band(len(cmd.cdb) == len(val.cdb), eqc)
+
     def sets(self, tier):
         return sets_offering(self.key)
 
@@ -142,7 +177,7 @@ class ModeSelectUnit(_ListUnit):
                 if s is None:
                     mp["sub_page_code"] = 0 if case["extra_key"].endswith("=0") else None
         self.caller_objects = [data] + data["mode_pages"]
-        return X.call(self._cls(), self.opcode_obj(case), data, pf=a.pf, sp=a.sp)
+        return self.call_twice(X, lambda: X.call(self._cls(), self.opcode_obj(case), data, pf=a.pf, sp=a.sp))
 
     def ensures(self, case, a, out, X):
         if out.kind != "return":
@@ -154,6 +189,7 @@ class ModeSelectUnit(_ListUnit):
         yield from cdb_clauses(lay, cmd.cdb, {"pf": a.pf, "sp": a.sp})
         if isinstance(cmd.cdb, (bytearray, V.SBytes)) and len(cmd.cdb) == lay.length:
             yield from list_clauses(cmd, lay, self.expected)
+        yield from self.second_clauses(cmd)
 
     def canaries(self, case, a, out, X):
         if out.kind == "return" and isinstance(out.value.dataout, (bytearray, V.SBytes)) and len(out.value.dataout) > 2:
@@ -351,7 +387,8 @@ class PROutUnit(_ListUnit):
                 D.put_be(exp, 24, 4, len(tbs))
         self.expected = exp
         self.caller_objects = [v for v in kw.values() if isinstance(v, (dict, list))]
-        return X.call(self._cls(), self.opcode_obj(case), case["sa"], a.scope, a.pr_type, **kw)
+        self.caller_objects += [t for v in kw.values() if isinstance(v, list) for t in v if isinstance(t, dict)]
+        return self.call_twice(X, lambda: X.call(self._cls(), self.opcode_obj(case), case["sa"], a.scope, a.pr_type, **kw))
 
     def ensures(self, case, a, out, X):
         if out.kind != "return":
@@ -363,6 +400,7 @@ class PROutUnit(_ListUnit):
         yield from cdb_clauses(lay, cmd.cdb, {"service_action": case["sa"], "scope": a.scope, "pr_type": a.pr_type})
         if isinstance(cmd.cdb, (bytearray, V.SBytes)) and len(cmd.cdb) == lay.length:
             yield from list_clauses(cmd, lay, self.expected)
+        yield from self.second_clauses(cmd)
 
     def canaries(self, case, a, out, X):
         if out.kind == "return" and isinstance(out.value.dataout, (bytearray, bytes, V.SBytes)) and len(out.value.dataout) >= 8:
@@ -552,8 +590,8 @@ class XCopyUnit(_ListUnit):
         self.caller_objects = tl + sl + [tl, sl]
         self.caller_writable = sl  # marshall_segment normalises descriptor_type_code / descriptor_length in place (idempotent)
         if self.lid4:
-            return X.call(K, op, hv["sequential_striped"], hv["list_id_usage"], hv["priority"], hv["g_sense"], hv["immed"], hv["list_identifier"], tl, sl, inline)
-        return X.call(K, op, hv["list_identifier"], hv["sequential_striped"], hv["nrcr"], hv["priority"], tl, sl, inline)
+            return self.call_twice(X, lambda: X.call(K, op, hv["sequential_striped"], hv["list_id_usage"], hv["priority"], hv["g_sense"], hv["immed"], hv["list_identifier"], tl, sl, inline))
+        return self.call_twice(X, lambda: X.call(K, op, hv["list_identifier"], hv["sequential_striped"], hv["nrcr"], hv["priority"], tl, sl, inline))
 
     def run_refusal(self, X, case, K, op):
         what = case["refusal"]
@@ -599,6 +637,7 @@ class XCopyUnit(_ListUnit):
         yield from cdb_clauses(lay, cmd.cdb, {})
         if isinstance(cmd.cdb, (bytearray, V.SBytes)) and len(cmd.cdb) == lay.length:
             yield from list_clauses(cmd, lay, self.expected)
+        yield from self.second_clauses(cmd)
 
 
 UNITS = [register(u) for u in (ModeSelectUnit(False), ModeSelectUnit(True), TransportIdMarshall(), PROutUnit(), XCopyUnit(False), XCopyUnit(True))]
